@@ -76,9 +76,9 @@ func init() {
 	registry["C08"] = &propCfg{
 		Engine: pipe.Engine{}, EngineName: "pipe", Level: "exploration",
 		QuickRuns: 300000, ThoroughRuns: 4000000, QuickCapS: 60, ThoroughCapS: 900,
-		Rule: "one run = one source stream (a single value, or 2-4 concatenated container documents) of a drawn source format written by the independent writers, piped ParseReader(simkit.Reader) -> encoder of a drawn target format under 3-6 read plans (whole, 1-byte, seeded short reads; EOF with/after data); evaluations = pipeline executions; distinct by (pair, source bytes, read plan, eof mode); every execution is non-trivial (the transport schedules every read)",
+		Rule: "one run = one source stream (a single value, or 2-4 concatenated container documents) of a drawn source format written by the independent writers, piped parser -> encoder of a drawn target format under 3-6 plans: ParseReader(simkit.Reader) with whole, 1-byte or seeded short reads and EOF with/after data (two thirds), else Parse, ParseString, Write under a cut schedule, a reader pull decoder (drawn buffer size and concrete reader type) or a bytes pull decoder looped to io.EOF; the sink writer is seen through drawn optional interfaces (io.ByteWriter/io.StringWriter) and a JSON target encoder gets drawn options (HTML escaping, explicit radix point, invalid floats as null); evaluations = pipeline executions; distinct by (pair, source bytes, entry, plan, eof mode, buffer, reader/writer kind, options); every execution is non-trivial (the transport schedules every read)",
 		Components: map[string][]string{
-			"real": {"json/ubjson/cborl Parser (ParseReader, io.Copy)", "json/ubjson/cborl Visitor (encoders)"},
+			"real": {"json/ubjson/cborl Parser (ParseReader/io.Copy, Parse, ParseString, Write)", "json/ubjson/cborl Decoder (Next loop)", "json/ubjson/cborl Visitor (encoders, JSON options)"},
 			"stub": {"io.Reader (simkit.Reader)", "io.Writer (simkit.Writer)", "pass-through contract tap between parser and encoder"}},
 		Assumptions: []string{"trusted base: independent writers and reference readers (encoding/json token stream; hand-written CBOR and UBJSON readers), cross-checked on every run", "value relation of DESIGN Appendix C"},
 	}
